@@ -115,13 +115,15 @@ bool ExprComparator::VisitCall(CallExpr e) {
     Expr arg = call.arg(i), other_arg = e.arg(i);
     if (arg.kind() != other_arg.kind())
       return false;
-    if (NumericExpr num_arg = Cast<NumericExpr>(arg)) {
-      if (!Equal(num_arg, Cast<NumericExpr>(other_arg)))
+    if (StringLiteral str_arg = Cast<StringLiteral>(arg)) {
+      if (std::strcmp(str_arg.value(),
+                      Cast<StringLiteral>(other_arg).value()) != 0)
         return false;
-    } else if (std::strcmp(
-            Cast<StringLiteral>(arg).value(),
-            Cast<StringLiteral>(other_arg).value()) != 0)
+    } else if (!Equal(arg, other_arg)) {
+      // Numeric arguments, and symbolic if-then-else, which the visitor
+      // reports as unsupported instead of being read as a string literal.
       return false;
+    }
   }
   return true;
 }
